@@ -1,4 +1,4 @@
-HOOK_COMMITS = ['d56e60a', '7a2a016', '5930dfb']
+HOOK_COMMITS = ['d56e60a', '7a2a016', '5930dfb', '5206d01']
 LSM_TIE = ('Tie: every run rebuilds the harness against /repo with -tags verif and executes random single-client programs on the real DB over a recording storage; hook events give '
  'every installed version, flush, table compaction and trivial move, whose table files are read back from storage and sent to the compiled Lean model: each installed version must satisfy Version.wfB, '
  'each flush table must equal the frozen buffer, each compaction must satisfy CompactionOK (inputs closed under user-comparer overlap, outputs = a legal cut of build minSeq base (mergeAll inputs)), '
